@@ -15,6 +15,9 @@ func judgeC06(sc *BatchSc, x *batchExec, br batchRun, fail string) Verdict {
 	if fail != "" && !goroutinesRemain(fail) {
 		return bad("C06:bubble", "%s", fail)
 	}
+	if br.Rejected {
+		return ok(false, "prep-form-rejected")
+	}
 	if br.Panic != "" {
 		return bad("C06:panic", "run panicked: %s", br.Panic)
 	}
